@@ -290,16 +290,24 @@ func checkC06(r *core.Run) {
 				oldP = p
 			}
 		}
-		ast.Inspect(u.Decl.Body, func(n ast.Node) bool {
-			if c, ok := n.(*ast.CallExpr); ok && (stdMethod(core.Callee(info, c), pSQL, "Stmt", "Exec") || stdMethod(core.Callee(info, c), pSQL, "Stmt", "ExecContext") || stdMethod(core.Callee(info, c), pSQL, "Tx", "Exec")) {
-				for _, a := range c.Args {
-					if oldP != nil && isObj(info, a, oldP) {
-						reaches = true
-					}
+		// (the statement may be executed by a helper of the package that is handed the arguments)
+		execRes := (&flow.Spec{W: w, Depth: 0, Inline: 3, Classify: func(pkg *packages.Package, call *ast.CallExpr, callee *types.Func) []flow.Tag {
+			if stdMethod(callee, pSQL, "Stmt", "Exec") || stdMethod(callee, pSQL, "Stmt", "ExecContext") || stdMethod(callee, pSQL, "Tx", "Exec") || stdMethod(callee, pSQL, "Tx", "ExecContext") {
+				return []flow.Tag{"exec"}
+			}
+			return nil
+		}}).Analyze(u)
+		for _, cp := range execRes.Calls {
+			if !inSet("exec", cp.Tags...) || oldP == nil {
+				continue
+			}
+			for _, a := range cp.Call.Args {
+				o := originVia(u, cp.Fn, a, 4)
+				if replaceToken(o, "param:"+oldP.Name(), "\x00") != o {
+					reaches = true
 				}
 			}
-			return true
-		})
+		}
 		r.Sites++
 		r.Check(reaches, "C06.cas", core.ShortKey(u.Obj)+" : old status is a statement argument", w.Pos(u.Decl.Pos()), "the expected old status is bound into the UPDATE", "the expected old status never reaches the statement's arguments: the update is unconditional")
 		// the statement text has the status predicate
@@ -332,51 +340,72 @@ func checkC06(r *core.Run) {
 		}
 		r.Check(hasPred, "C06.cas", "fence UPDATE statement has `status = ?` in its WHERE clause", w.Pos(u.Decl.Pos()), "UPDATE ... WHERE ... status = ?", "the fence UPDATE statement does not constrain the old status")
 		// zero rows affected is an error
-		res := (&flow.Spec{W: w, CondTags: func(pkg *packages.Package, cond ast.Expr, branch bool) []flow.Tag {
-			be, ok := ast.Unparen(cond).(*ast.BinaryExpr)
-			if !ok {
-				return nil
+		// (the count is the variable assigned from sql.Result.RowsAffected, wherever in the package that happens)
+		counts := map[types.Object]bool{}
+		for _, g := range w.Funcs {
+			if g.Pkg != u.Pkg || g.Decl == nil || g.Decl.Body == nil {
+				continue
 			}
-			if be.Op == token.EQL {
-				if v := core.ConstVal(pkg.TypesInfo, be.Y); v != nil && v.Kind() == constant.Int {
-					if i, _ := constant.Int64Val(v); i == 0 && branch && strings.Contains(core.ExprString(be.X), "ffected") {
-						return []flow.Tag{"zerorows"}
-					}
+			ast.Inspect(g.Decl.Body, func(n ast.Node) bool {
+				as, ok := n.(*ast.AssignStmt)
+				if !ok || len(as.Rhs) != 1 || len(as.Lhs) < 1 {
+					return true
 				}
-			}
-			return nil
-		}}).Analyze(u)
-		okZero := false
-		for _, ex := range res.Exits {
-			if ex.Class == flow.ExitOK {
-				okZero = true
-			}
-		}
-		// every nil return must lie on the `affected == 0` false side: check by AST — an if whose condition contains affected == 0 returns an error
-		zeroErr := false
-		ast.Inspect(u.Decl.Body, func(n ast.Node) bool {
-			ifs, ok := n.(*ast.IfStmt)
-			if !ok {
-				return true
-			}
-			has := false
-			ast.Inspect(ifs.Cond, func(m ast.Node) bool {
-				if be, ok := m.(*ast.BinaryExpr); ok && be.Op == token.EQL {
-					if v := core.ConstVal(info, be.Y); v != nil && v.Kind() == constant.Int && strings.Contains(core.ExprString(be.X), "ffected") {
-						has = true
+				c, ok := ast.Unparen(as.Rhs[0]).(*ast.CallExpr)
+				if !ok {
+					return true
+				}
+				if f := core.Callee(g.Pkg.TypesInfo, c); f != nil && f.Name() == "RowsAffected" {
+					if id, ok := as.Lhs[0].(*ast.Ident); ok {
+						if o := g.Pkg.TypesInfo.ObjectOf(id); o != nil {
+							counts[o] = true
+						}
 					}
 				}
 				return true
 			})
-			if has && !strings.Contains(core.ExprString(ifs.Cond), "&&") {
-				for _, s := range ifs.Body.List {
-					if rs, ok := s.(*ast.ReturnStmt); ok && len(rs.Results) == 1 && !isNilIdent(info, rs.Results[0]) {
-						zeroErr = true
-					}
+		}
+		res := (&flow.Spec{W: w, Inline: 3, Split: []flow.Tag{"zerorows"}, CondTags: func(pkg *packages.Package, cond ast.Expr, branch bool) []flow.Tag {
+			be, ok := ast.Unparen(cond).(*ast.BinaryExpr)
+			if !ok {
+				return nil
+			}
+			id, ok := ast.Unparen(be.X).(*ast.Ident)
+			if !ok || !counts[pkg.TypesInfo.ObjectOf(id)] {
+				return nil
+			}
+			v := core.ConstVal(pkg.TypesInfo, be.Y)
+			if v == nil || v.Kind() != constant.Int {
+				return nil
+			}
+			k, _ := constant.Int64Val(v)
+			// the branch on which the count is known to be zero (counts are never negative)
+			zero := false
+			switch {
+			case be.Op == token.EQL && k == 0, be.Op == token.LSS && k == 1, be.Op == token.LEQ && k == 0:
+				zero = branch
+			case be.Op == token.NEQ && k == 0, be.Op == token.GEQ && k == 1, be.Op == token.GTR && k == 0:
+				zero = !branch
+			}
+			if zero {
+				return []flow.Tag{"zerorows"}
+			}
+			return nil
+		}}).Analyze(u)
+		// no return that knows "0 rows affected" is a success; and there is a success return at all
+		okZero, zeroErr, sawZero := false, true, false
+		for _, ex := range res.Exits {
+			if ex.Class == flow.ExitOK {
+				okZero = true
+			}
+			if ex.St.Maybe("zerorows") {
+				sawZero = true
+				if ex.Class != flow.ExitErr {
+					zeroErr = false
 				}
 			}
-			return true
-		})
+		}
+		zeroErr = zeroErr && sawZero
 		r.Check(zeroErr && okZero, "C06.cas", core.ShortKey(u.Obj)+" : zero affected rows is an error", w.Pos(u.Decl.Pos()), "a lost compare-and-set (0 rows) fails", "an update that changes no row (lost compare-and-set) is not reported as an error")
 	}
 	// ---- C06.cas: the fence record is read with a locking read (serialises two deliveries for one branch)
